@@ -53,7 +53,7 @@ THEOREMS = [
     "Klong.C14.pinned_no_stuck_waiter_fails",
 ]
 
-CALLS = ("call", "bigcall", "hugecall")     # plain / 70 000 / 300 000 character request payload
+CALLS = ("call", "bigcall", "hugecall", "failcall", "badresult")     # plain / 70 000 / 300 000 character request payload
 VALUES = ["a0", "a1", "a2", "dup", "push", "boom",     # bodies; "boom" fails when evaluated locally
           "x" * 65537, "y" * 200000, "z" * 65000]       # pickled: > 64 KiB, ~200 KB, just under 64 KiB
 FAIL = [5]
@@ -92,7 +92,7 @@ def detect_variant():
 def run_case(ctx, drv, case, variant, record=None):
     from .c14_harness import Harness, HarnessHang, show_bytes
     kinds, stream, sched = case["callers"], [tuple(x) for x in case["stream"]], case["sched"]
-    h = Harness(kinds, VALUES, stream, [VALUES[i] for i in FAIL])
+    h = Harness(kinds, VALUES, stream, [VALUES[i] for i in FAIL], server=bool(case.get("server")))
     hang_step = None
     try:
         try:
@@ -115,6 +115,7 @@ def run_case(ctx, drv, case, variant, record=None):
         spin = h.spin
         wire_probs = h.wire_problems()
         unsent = list(h.unsent_blocked)
+        unanswered = list(h.unanswered_blocked)
         extra_writes = h.extra_writes
         crash = None
         if h.run_task.done() and not h.run_task.cancelled() and h.run_task.exception() is not None:
@@ -164,6 +165,12 @@ def run_case(ctx, drv, case, variant, record=None):
         ctx.oracle_fail("c14:listener-crash", case, "the listener leaves through its cleanup and signals its exit",
                         dict(crash=crash, observed=observed),
                         "_run died inside finally: remaining futures are never failed, _run_exit_event never set")
+    if unanswered:
+        ctx.oracle_fail("c14:hang:server-failure-not-reported", case,
+                        "a call whose request the server has read returns or raises",
+                        dict(callers=unanswered, listener=lst, observed=observed),
+                        "the real server side has read the request and has nothing left to do, it neither answered "
+                        "nor closed the connection: the caller stays pending on a healthy, idle connection")
     if unsent:
         ctx.oracle_fail("c14:hang:request-never-written", case,
                         "a call blocked in result() has had its request handed to the writer",
@@ -545,6 +552,25 @@ def gen_peer(rng, thorough):
                 yield dict(kind="peer-order", callers=kinds, stream=stream, sched=sched)
 
 
+def gen_server(rng, count):
+    """the REAL server side (TcpServerHandler.handle_client -> NetworkClient._run) at the other
+    end of the wire: requests that evaluate, requests whose evaluation raises, results that
+    cannot be pickled - a failure must reach the caller (the server drops the connection)"""
+    for i in range(count):
+        n = rng.randrange(1, 4)
+        kinds = [rng.choice(["call", "call", "failcall", "badresult"]) for _ in range(n)]
+        if i % 2 == 0 and all(k == "call" for k in kinds):
+            kinds[rng.randrange(n)] = rng.choice(["failcall", "badresult"])
+        seqs = [[["K", k]] * 3 for k in range(n)]
+        sched = []
+        for it in interleave(rng, seqs):
+            sched.append(it)
+            if rng.random() < 0.25:
+                sched.append(["IO"] if rng.random() < 0.5 else ["IOS"])
+        sched.append(["IOS"])
+        yield dict(kind="server-side", server=True, callers=kinds, stream=[], sched=sched)
+
+
 def gen_after_gone(rng, count):
     """calls made after the connection has gone"""
     for _ in range(count):
@@ -715,6 +741,7 @@ def run(ctx):
             kernel_trace_obligation(ctx, variant, rec[0])
         gens = [
             gen_orders(ctx.rng, not quick),
+            gen_server(ctx.rng, 60 if quick else 500),
             gen_peer(ctx.rng, not quick),
             gen_slow(ctx.rng, not quick),
             gen_backpressure(ctx.rng, 60 if quick else 600),
